@@ -473,14 +473,56 @@ def r26(body):
                 lambda m: "%svx_vec_splice_tail(&mut %s, %s, %s);" % (re.match(r"\s*", m.group(1)).group(0), "".join(m.group(1).split()), m.group(2), m.group(3)), body)
 
 
-@rule("R27", "E.is_some_and(|P| B) -> match E { Some(P) => B, None => false }   [Option::is_some_and is `match self { None => false, Some(x) => f(x) }`; the closure is inlined; side condition: B is an expression without `return`/`?`]")
+def _match_paren(body, i):
+    """index of the `)` matching the `(` at i (strings skipped)"""
+    depth, j, in_str = 0, i, False
+    while j < len(body):
+        ch = body[j]
+        if in_str:
+            if ch == '\\':
+                j += 1
+            elif ch == '"':
+                in_str = False
+        elif ch == '"':
+            in_str = True
+        elif ch in "([{":
+            depth += 1
+        elif ch in ")]}":
+            depth -= 1
+            if depth == 0:
+                return j
+        j += 1
+    return -1
+
+
+_RECV = r"((?:self\s*\.\s*)?\w+(?:\s*\.\s*\w+(?:\s*\(\s*\))?)*?)"
+
+
+def _option_closure_method(body, method, nargs, build):
+    count, pos = 0, 0
+    while True:
+        m = re.compile(_RECV + r"\s*\.\s*%s\s*\(" % method).search(body, pos)
+        if not m:
+            break
+        close = _match_paren(body, m.end() - 1)
+        if close < 0:
+            break
+        args = _split_top_comma(body[m.end():close])
+        cm = re.match(r"^\s*\|([^|]+)\|\s*(.+?)\s*$", args[-1], re.S) if len(args) == nargs else None
+        if not cm or re.search(r"\breturn\b|\?|\bbreak\b|\bcontinue\b", cm.group(2)):
+            pos = m.end()
+            continue
+        new = build(" ".join(m.group(1).split()), [a.strip() for a in args[:-1]], cm.group(1).strip(), cm.group(2).strip())
+        old = body[m.start():close + 1]
+        body = body[:m.start()] + _pad(old, new) + body[close + 1:]
+        pos = m.start() + len(new)
+        count += 1
+    return body, count
+
+
+@rule("R27", "E.is_some_and(|P| B) -> match E { Some(P) => B, None => false }   [Option::is_some_and is `match self { None => false, Some(x) => f(x) }`; the closure is inlined; side condition: B without `return`/`?`/`break`/`continue`]")
 def r27(body):
-    def rep(m):
-        if re.search(r"\breturn\b|\?", m.group(3)):
-            return m.group(0)
-        return "match %s { Some(%s) => %s, None => false }" % (" ".join(m.group(1).split()), m.group(2).strip(), m.group(3).strip())
-    out, c = _sub(r"((?:self\s*\.\s*)?[\w]+(?:\s*\.\s*\w+)*?)\s*\.\s*is_some_and\s*\(\s*\|([^|]+)\|\s*([^{}();]+?)\s*\)", rep, body)
-    return out, c
+    return _option_closure_method(body, "is_some_and", 1, lambda e, a, p, b: "match %s { Some(%s) => %s, None => false }" % (e, p, b))
 
 
 @rule("R28", "STATIC.load(Ordering::Relaxed) -> vx_atomic_load_STATIC()   [std contract: an atomic load returns some value of the atomic's type; the helper is declared per static in the unit]")
@@ -488,8 +530,22 @@ def r28(body):
     return _sub(r"\b([A-Z][A-Z0-9_]+)\s*\.\s*load\s*\(\s*Ordering\s*::\s*Relaxed\s*\)", lambda m: "vx_atomic_load_%s()" % m.group(1), body)
 
 
+@rule("R29", "E.map_or(D, |P| B) -> match E { Some(P) => B, None => D }   [Option::map_or is `match self { Some(t) => f(t), None => default }`; closure inlined; same side condition; D is evaluated eagerly in the original and must be call-free here (literal, path, or a constructor applied to such)]")
+def r29(body):
+    def build(e, a, p, b):
+        return "match %s { Some(%s) => %s, None => %s }" % (e, p, b, a[0])
+    # eager default: only side-effect-free defaults are rewritten
+    out, c = body, 0
+    probe = re.compile(_RECV + r"\s*\.\s*map_or\s*\(\s*([\w:]+|(?:Some|Ok|Err)\s*\(\s*[\w:]+\s*\))\s*,")
+    if probe.search(body):
+        out, c = _option_closure_method(body, "map_or", 2, build)
+    return out, c
+
+
 # rules that are purely syntactic proof devices are applied only when a unit asks for them
-OPT_IN = {"R9", "R9b", "R15", "R17", "R21", "R22", "R24", "R25", "R25b", "R26", "R27", "R28"}
+OPT_IN = {"R9", "R9b", "R15", "R17", "R21", "R22", "R24", "R25", "R25b", "R26", "R28"}
+# std-definition rules that may fire in any extracted function without being declared by the unit (they are logged)
+FREE = {"R27", "R29"}
 
 
 @rule("R3b", "assert!(E, \"msg\") -> proved assertion on the executable operand   [strengthening: the runtime check must never fire]")
